@@ -34,6 +34,15 @@ UNIT = dict(
         question=True,
         subst=[("vec![]", "Vec::new()"), ("mpsc::error::TrySendError::", "TrySendError::"), ("mpsc::error::SendError(", "SendError(")],
     ),
+    structural=[
+        dict(id="C02.structure.cli_debounce_is_the_throttle", file="crates/cli/src/config.rs", count_in_fn="make_config", pattern="config.throttle(args.events.debounce.0);", expect=1,
+             why="the CLI's --debounce value is the configured throttle"),
+        dict(id="C02.structure.cli_throttle_set_once", file="crates/cli/src/config.rs", count_in_fn="make_config", pattern="config.throttle(", expect=1, why="nothing overrides it"),
+        dict(id="C02.structure.cli_unitless_debounce_is_milliseconds", file="crates/cli/src/args/events.rs", count_in_file=True, pattern="pub debounce: TimeSpan<1_000_000>,", expect=1,
+             why="a unit-less --debounce value is documented as milliseconds: TimeSpan's parameter is the nanosecond multiplier of unit-less values"),
+        dict(id="C02.structure.timespan_multiplies_unitless_values_by_its_parameter", file="crates/cli/src/args.rs", count_in_fn="from_str", pattern="Ok(Duration::from_nanos(unitless * UNITLESS_NANOS_MULTIPLIER))", expect=1,
+             why="see above"),
+    ],
     extract=[
         dict(id="Priority", kind="type", src="crates/events/src/event.rs", name="Priority", structural=True),
         dict(id="throttle_collect", kind="fn", src=W, name="throttle_collect"),
